@@ -1,0 +1,6 @@
+//go:build !verif
+
+package core
+
+// verifFileAccess is a no-op unless the package is built with the "verif" tag.
+func verifFileAccess(string, string) {}
